@@ -217,8 +217,11 @@ def gen_bridge(rng):
     for i in range(rng.range(0, 5)):
         scopes = []
         for _ in range(rng.choice([0, 0, 1, 2])):
-            scopes.append(rng.choice(["blk", "sub", 0, 1, 2]))
-        regs.append({"name": f"r{i}", "scopes": scopes, "reg": gen_register(rng),
+            scopes.append(rng.choice(["blk", "sub", 0, 1, 2, "0", "1"]))
+        # register names are free-form: short common words, names that look like a path
+        name = f"r{i}" if not rng.chance(0.25) else rng.choice(
+            ["mux", "ctrl", "blk__ctrl", "0", "sub__r0", "bus"])
+        regs.append({"name": name, "scopes": scopes, "reg": gen_register(rng),
                      "off": None})
     return {"aw": rng.range(3, 8), "dw": dw, "regs": regs}
 
@@ -284,6 +287,11 @@ def build_csrevmon(cfg):
                        alignment=cfg["al"], **kw)
     b = Built(dut, "csr.EventMonitor")
     b.add_component_signature()
+    # documented geometry: two mask registers of ceil(n / data_width) words each (at least one
+    # address bit), each aligned to 2**alignment
+    words = (len(cfg["srcs"]) + cfg["dw"] - 1) // cfg["dw"]
+    b.port_params = {"addr_width": 1 + max((words - 1).bit_length() if words > 1 else 0, cfg["al"]),
+                     "data_width": cfg["dw"]}
     for i, s in enumerate(srcs):
         b.add_interface(s, f"src{i}", dut_is_target=True)
     b.maps.append(dut.bus.memory_map)
